@@ -1,8 +1,8 @@
 SPECIFICATION Spec
-CONSTANT Configs <- ConfigsFull
-CONSTANT RandVals <- RandValsSmall
+CONSTANT Configs <- ConfigsBytes
+CONSTANT RandVals <- RandValsBytes
 CONSTANT K = 1
-CONSTANT SkipSame = "no"
+CONSTANT SkipSame = "exact"
 CONSTANT defaultInitValue = 0
 INVARIANT InvP1
 INVARIANT InvP2
